@@ -3,6 +3,9 @@ import F3.Proofs.InstanceRun
 import F3.Props.C07
 import F3.Proofs.SyncGeneralNet
 import F3.Model.NetTimed
+import F3.Proofs.AlarmInvRun
+import F3.Model.NetRanked
+import F3.Proofs.RoundDecides
 /-!
 # C06 — termination (partial by nature)
 
@@ -543,6 +546,352 @@ example :
   decide
 
 end GeneralInputs
+
+/-! ## Run level: the host's timer stays armed, ticket ranks, and what the round bound depends on (audit finding H1)
+
+`F3/Proofs/AlarmInv{,Step,Run}.lean` (namespace `F3.Liveness`): the ghost *host timer* of a run and the invariant `Armed`;
+`F3/Model/NetRanked.lean`: the network of `F3/Model/Net.lean` with CONVERGE ticket ranks; `F3/Proofs/RoundDecides*.lean`:
+what a round `r ≥ 1` does when the best ticket's value is admissible everywhere. -/
+section RunLevel
+open F3.Liveness F3.Net F3.NetRanked
+
+/-- **`alarm_pending_inv` for validated runs.** One `Start`, then any alarms and validated (or foreign) deliveries — the
+hypotheses of `C07.no_internal_error_or_panic` — by an environment that behaves like the host (`hostOk`: time does not
+run backwards, `ReceiveAlarm` only when the pending alarm is due). Then after the run (`ops` is arbitrary: after every
+prefix, `alarm_pending_every_prefix`) the instance inside the host is the plain `run`, and while it is in
+QUALITY / CONVERGE / PREPARE / COMMIT of a round `≤ rebImmediateAfter` the host's single timer is armed: the pending
+alarm is the phase timeout (no rebroadcast scheduled) or the scheduled rebroadcast time (phase timeout passed). -/
+theorem alarm_pending_validated (cfg : Cfg) (t : Table) (input : Chain) (W : Votes) (now0 : Int) (ops : List Op)
+    (hin : input ≠ []) (hT : 0 < t.total)
+    (hstart : ∀ op ∈ ops, op.isStart = false)
+    (hvalid : ∀ op ∈ ops, foreignOp op = true ∨ OpValidG W t op)
+    (hhost : hostOk (initHost cfg t input now0) (.start now0 :: ops) = true) :
+    (hostRun (initHost cfg t input now0) (.start now0 :: ops)).st = (run (init cfg t input) (.start now0 :: ops)).1 ∧
+    Armed (hostRun (initHost cfg t input now0) (.start now0 :: ops)).st
+      (hostRun (initHost cfg t input now0) (.start now0 :: ops)).timer
+      (hostRun (initHost cfg t input now0) (.start now0 :: ops)).clock ∧
+    (InScope (run (init cfg t input) (.start now0 :: ops)).1 →
+      ∃ tm, (hostRun (initHost cfg t input now0) (.start now0 :: ops)).timer = some tm) := by
+  have hok := (F3.Props.C07.no_internal_error_or_panic cfg t input W now0 ops hin hT hstart hvalid).1
+  have hst : (hostRun (initHost cfg t input now0) (.start now0 :: ops)).st =
+      (run (init cfg t input) (.start now0 :: ops)).1 := hostRun_st _ _
+  have ha := alarm_pending_inv cfg t input now0 ops hok hhost
+  exact ⟨hst, ha, fun hs => ha.some (by rw [hst]; exact hs)⟩
+
+/-- ... in every state the run passes through -/
+theorem alarm_pending_every_prefix (cfg : Cfg) (t : Table) (input : Chain) (W : Votes) (now0 : Int) (ops : List Op)
+    (hin : input ≠ []) (hT : 0 < t.total)
+    (hstart : ∀ op ∈ ops, op.isStart = false)
+    (hvalid : ∀ op ∈ ops, foreignOp op = true ∨ OpValidG W t op)
+    (hhost : hostOk (initHost cfg t input now0) (.start now0 :: ops) = true) (k : Nat) :
+    InScope (run (init cfg t input) (.start now0 :: ops.take k)).1 →
+      ∃ tm, (hostRun (initHost cfg t input now0) (.start now0 :: ops.take k)).timer = some tm :=
+  (alarm_pending_validated cfg t input W now0 (ops.take k) hin hT
+    (fun op h => hstart op (List.mem_of_mem_take h)) (fun op h => hvalid op (List.mem_of_mem_take h))
+    (by have := hostOk_take _ _ (k + 1) hhost; simpa using this)).2.2
+
+/-- **`no_stuck_phase` for validated runs.** If the run is continued by the alarm (fired by the host: due, and no
+earlier than the last call) while the instance is in scope, then the alarm finds the phase timeout expired and:
+QUALITY → PREPARE; CONVERGE → PREPARE; PREPARE → COMMIT, COMMIT → DECIDE or CONVERGE of the next round, or (PREPARE /
+COMMIT with no strong quorum of senders heard) the instance stays, requests the scheduled rebroadcast round and re-arms
+the timer; afterwards an alarm is pending again unless the instance is in DECIDE. -/
+theorem no_stuck_phase_validated (cfg : Cfg) (t : Table) (input : Chain) (W : Votes) (now0 now : Int) (ops : List Op)
+    (hin : input ≠ []) (hT : 0 < t.total)
+    (hstart : ∀ op ∈ ops, op.isStart = false)
+    (hvalid : ∀ op ∈ ops, foreignOp op = true ∨ OpValidG W t op)
+    (hhost : hostOk (initHost cfg t input now0) (.start now0 :: (ops ++ [.alarm now])) = true)
+    (hs : InScope (run (init cfg t input) (.start now0 :: ops)).1) :
+    let s := (run (init cfg t input) (.start now0 :: ops)).1
+    s.phaseTimeoutElapsed now = true ∧
+    (s.phase = .quality → (step s (.alarm now)).1.phase = .prepare ∧ (step s (.alarm now)).1.round = s.round) ∧
+    (s.phase = .converge → (step s (.alarm now)).1.phase = .prepare ∧ (step s (.alarm now)).1.round = s.round) ∧
+    (s.phase = .prepare →
+      ((step s (.alarm now)).1.phase = .commit ∧ (step s (.alarm now)).1.round = s.round) ∨
+      (Rearmed s (step s (.alarm now)) ∧ (s.getRound s.round).prepared.fromStrong s.tbl = false)) ∧
+    (s.phase = .commit →
+      (step s (.alarm now)).1.phase = .decide ∨
+      ((step s (.alarm now)).1.phase = .converge ∧ (step s (.alarm now)).1.round = s.round + 1) ∨
+      (Rearmed s (step s (.alarm now)) ∧ (s.getRound s.round).committed.fromStrong s.tbl = false)) ∧
+    ((step s (.alarm now)).1.phase = .decide ∨ ∃ t', lastAlarm none (step s (.alarm now)).2 = some t') := by
+  intro s
+  have hok := (F3.Props.C07.no_internal_error_or_panic cfg t input W now0 (ops ++ [.alarm now]) hin hT
+    (fun op h => by
+      rcases List.mem_append.1 h with h | h
+      · exact hstart op h
+      · simp at h; subst h; rfl)
+    (fun op h => by
+      rcases List.mem_append.1 h with h | h
+      · exact hvalid op h
+      · simp at h; subst h; exact Or.inr trivial)).1
+  obtain ⟨hok1, hlast⟩ := okRunI_snoc _ (.start now0 :: ops) (.alarm now) hok
+  obtain ⟨hh1, hh2⟩ := hostOk_snoc _ (.start now0 :: ops) (.alarm now) hhost
+  have hst : (hostRun (initHost cfg t input now0) (.start now0 :: ops)).st = s := hostRun_st _ _
+  have ha := alarm_pending_inv cfg t input now0 ops hok1 hh1
+  rw [hst] at ha
+  have hnf : hasFailure (step s (.alarm now)).2 = false := by
+    rcases hlast with h | h
+    · cases h
+    · exact h
+  unfold hostOpOk at hh2
+  rw [Bool.and_eq_true, decide_eq_true_eq] at hh2
+  obtain ⟨tm, htm⟩ := ha.some hs
+  rw [htm] at ha hh2
+  have hdue : tm ≤ now := by simpa using hh2.2
+  exact no_stuck_phase s tm _ now ha hs hh2.1 hdue hnf
+
+/-! ### where the invariant fails: the `tryRebroadcast` alarm gaps (DECIDE; rounds beyond `rebImmediateAfter`)
+
+`tryRebroadcast` run *before* the phase timeout (DECIDE, or a round `> rebImmediateAfter`) schedules rebroadcasts with
+the current time as offset. When the next rebroadcast time lies at or beyond the (possibly stale) phase timeout it sets
+the alarm back to the phase timeout (`gpbft.go`: "Reverted to phase timeout"). When that alarm fires, the rebroadcast
+timeout has not elapsed, the `switch` of `tryRebroadcast` takes its `default:` branch and no alarm is set: the host's
+one-shot timer is dead until some message happens to arrive after the rebroadcast time. -/
+
+def gapTbl : Table := { entries := [(1, 10), (2, 10), (3, 10), (4, 10)] }
+/-- rebroadcast after 30, then 200 (any back-off whose second step overshoots the phase timeout) -/
+def gapCfg : Cfg := { maxLookahead := 2, rebImmediateAfter := 3, timeout2 := [100, 130], qualityTimeout2 := 100, rebAfter := [30, 200] }
+def gapDecide : Msg :=
+  { sender := 2, round := 0, phase := .decide, value := [7, 8],
+    just := some { round := 0, phase := .commit, value := [7, 8], signers := [0, 1, 2] } }
+/-- `Start` at 0 (QUALITY timeout 100); one DECIDE arrives at 10: skip to DECIDE, first rebroadcast scheduled for 40 —
+before the stale QUALITY timeout, so the alarm is moved to 40; the alarm fires at 40: rebroadcast, next one due at 240,
+beyond 100, so the alarm is "reverted" to 100; the alarm fires at 100: rebroadcast not due, nothing is armed. -/
+def gapDecideOps : List Op := [.start 0, .recv 10 gapDecide, .alarm 40, .alarm 100]
+
+/-- **Finding (alarm gap in DECIDE).** An admissible host run without any failure after which the instance sits in
+DECIDE, not terminated, with *no alarm pending* (and its last alarm request, `setAlarm 100`, already consumed). -/
+theorem decide_alarm_gap :
+    okRunI (init gapCfg gapTbl [7, 8]) gapDecideOps = true ∧
+    hasFailure (run (init gapCfg gapTbl [7, 8]) gapDecideOps).2 = false ∧
+    hostOk (initHost gapCfg gapTbl [7, 8] 0) gapDecideOps = true ∧
+    (hostRun (initHost gapCfg gapTbl [7, 8] 0) gapDecideOps).st.phase = .decide ∧
+    (hostRun (initHost gapCfg gapTbl [7, 8] 0) gapDecideOps).st.rebTimeout = some 240 ∧
+    (hostRun (initHost gapCfg gapTbl [7, 8] 0) gapDecideOps).timer = none ∧
+    (hostRun (initHost gapCfg gapTbl [7, 8] 0) (gapDecideOps.take 3)).timer = some 100 := by
+  refine ⟨by decide, by decide, by decide, by decide, by decide, by decide, by decide⟩
+
+/-- the same configuration with rebroadcast immediately from round 1 on -/
+def gapCfg0 : Cfg := { gapCfg with rebImmediateAfter := 0 }
+def gapJ : Just := { round := 0, phase := .commit, value := [], signers := [0, 1, 2] }
+def gapCv (p : Pid) : Msg := { sender := p, round := 1, phase := .converge, value := [7], rank := p, just := some gapJ }
+def gapPv (p : Pid) : Msg := { sender := p, round := 1, phase := .prepare, value := [7], just := some gapJ }
+/-- the participant is pulled into round 1 by a weak quorum of PREPAREs (skip rule) at 12, leaves CONVERGE at its
+timeout 142 and PREPAREs (timeout 272); a CONVERGE arriving at 150 runs `tryRebroadcast` (round 1 > 0): rebroadcast
+scheduled for 180, alarm moved there; alarm at 180: rebroadcast, next one due at 380 ≥ 272: alarm reverted to 272;
+alarm at 272: no strong quorum of PREPARE senders, rebroadcast not due — nothing is armed. -/
+def gapLateOps : List Op :=
+  [.start 0, .recv 10 (gapCv 2), .recv 11 (gapPv 2), .recv 12 (gapPv 3), .alarm 142, .recv 150 (gapCv 3), .alarm 180, .alarm 272]
+
+/-- **Finding (alarm gap in a round beyond `rebroadcastImmediatelyAfterRound`).** The same gap in PREPARE of round 1
+with `rebImmediateAfter = 0` (Go's default is 3: rounds ≥ 4): after the alarm at the phase timeout the participant is
+in PREPARE without a strong quorum of senders and no alarm is pending; only the next delivery after time 380 wakes it
+up (`.recv 400 _` re-arms). The bound `s.round ≤ rebImmediateAfter` in `InScope` is therefore necessary. -/
+theorem late_round_alarm_gap :
+    okRunI (init gapCfg0 gapTbl [7, 8]) gapLateOps = true ∧
+    hasFailure (run (init gapCfg0 gapTbl [7, 8]) gapLateOps).2 = false ∧
+    hostOk (initHost gapCfg0 gapTbl [7, 8] 0) gapLateOps = true ∧
+    (hostRun (initHost gapCfg0 gapTbl [7, 8] 0) gapLateOps).st.phase = .prepare ∧
+    (hostRun (initHost gapCfg0 gapTbl [7, 8] 0) gapLateOps).st.round = 1 ∧
+    (hostRun (initHost gapCfg0 gapTbl [7, 8] 0) gapLateOps).timer = none ∧
+    (hostRun (initHost gapCfg0 gapTbl [7, 8] 0) (gapLateOps ++ [.recv 300 (gapCv 4)])).timer = none ∧
+    (hostRun (initHost gapCfg0 gapTbl [7, 8] 0) (gapLateOps ++ [.recv 300 (gapCv 4), .recv 400 (gapCv 1)])).timer = some 600 := by
+  refine ⟨by decide, by decide, by decide, by decide, by decide, by decide, by decide, by decide⟩
+
+/-- with `rebImmediateAfter = 3` the same deliveries stay in scope: rebroadcast waits for the phase timeout 272, the
+alarm at 272 schedules the first rebroadcast (302), the alarm at 302 the next (502) — as `alarm_pending_inv` says, the
+timer is armed after every call -/
+def gapInOps : List Op :=
+  [.start 0, .recv 10 (gapCv 2), .recv 11 (gapPv 2), .recv 12 (gapPv 3), .alarm 142, .recv 150 (gapCv 3), .alarm 272, .alarm 302]
+example : hostOk (initHost gapCfg gapTbl [7, 8] 0) gapInOps = true ∧
+    (List.range 8).map (fun k => (hostRun (initHost gapCfg gapTbl [7, 8] 0) (gapInOps.take (k + 1))).timer) =
+      [some 100, some 100, some 100, some 142, some 272, some 272, some 302, some 502] := by
+  refine ⟨by decide, by decide⟩
+
+
+/-! ### the ranked network (`F3/Model/NetRanked.lean`): a second round converges on the best ticket
+
+The audit's two-round scenario E6: four equal members, inputs `7.8` (members 1–3) and `7.9` (member 4). Members 1 and 2
+hold the QUALITY quorum for `7.8` and PREPARE it; members 3 and 4 leave QUALITY by their timers before the votes arrive
+and PREPARE the base `7` (member 3 learns `7.8` as a candidate from the late QUALITY votes). PREPARE splits 2/2, all
+four COMMIT bottom, round 1: CONVERGE `7.8`, `7.8`, `7`, `7`. -/
+
+def rkTbl : Table := { entries := [(1, 10), (2, 10), (3, 10), (4, 10)] }
+def rkCfg : Cfg := { maxLookahead := 2, rebImmediateAfter := 3, timeout2 := [100, 130], qualityTimeout2 := 100, rebAfter := [50] }
+def rkInp (p : Pid) : Chain := if p == 4 then [7, 9] else [7, 8]
+def rkNet : Net := initNet rkTbl [1, 2, 3, 4] (fun _ => rkCfg) rkInp
+/-- tickets: member 3 holds the best (lowest) ticket of every round, all tickets distinct -/
+def rkRank : Pid → Nat → Nat := fun p _ => if p == 3 then 1 else 5 + p
+def rkAll : List Pid := [1, 2, 3, 4]
+/-- every stage hands the pool messages of one (round, phase) to the listed members, unmodified -/
+def rkScript : List (Net → List NetOp) :=
+  [fun _ => [.start 1 0, .start 2 0, .start 3 0, .start 4 0],
+   fun n => floodOps n 1 [1, 2] 0 .quality,
+   fun _ => [.alarm 3 100, .alarm 4 100],
+   fun n => floodOps n 101 [3, 4] 0 .quality,
+   fun n => floodOps n 102 rkAll 0 .prepare,
+   fun n => floodOps n 103 rkAll 0 .commit,
+   fun n => floodOps n 104 rkAll 1 .converge,
+   fun _ => [.alarm 1 400, .alarm 2 400, .alarm 3 400, .alarm 4 400],
+   fun n => floodOps n 401 rkAll 1 .prepare,
+   fun n => floodOps n 402 rkAll 1 .commit,
+   fun n => floodOps n 403 rkAll 0 .decide]
+
+/-- **With distinct ticket ranks round 1 converges** (no hand-injected ranks: the deliveries are the pool messages).
+Member 3 holds the best ticket, its CONVERGE value `7` is a candidate at every member (the base), everybody PREPAREs
+and COMMITs `7` in round 1 and decides it; nothing fails. -/
+theorem ranked_round1_converges :
+    bestTicket rkRank rkAll 1 3 = true ∧
+    (runScript rkRank rkNet rkScript).1.fails = [] ∧
+    (runScript rkRank rkNet rkScript).1.nodes.map (fun e => (e.1, e.2.round, e.2.phase, e.2.termination.map (·.value))) =
+      [(1, 1, .terminated, some [7]), (2, 1, .terminated, some [7]), (3, 1, .terminated, some [7]),
+       (4, 1, .terminated, some [7])] ∧
+    ((runScript rkRank rkNet rkScript).1.pool.filter (fun m => m.round == 1)).map
+        (fun m => (m.sender, m.phase, m.value, m.rank)) =
+      [(1, .converge, [7, 8], 6), (2, .converge, [7, 8], 7), (3, .converge, [7], 1), (4, .converge, [7], 9),
+       (1, .prepare, [7], 0), (2, .prepare, [7], 0), (3, .prepare, [7], 0), (4, .prepare, [7], 0),
+       (1, .commit, [7], 0), (2, .commit, [7], 0), (3, .commit, [7], 0), (4, .commit, [7], 0)] := by
+  refine ⟨by decide, by decide +kernel, by decide +kernel, by decide +kernel⟩
+
+/-- the events of that run are admissible (`execOkR`: only pool messages, to started members) -/
+theorem ranked_round1_admissible : execOkR rkRank rkNet (runScript rkRank rkNet rkScript).2 = true := by
+  decide +kernel
+
+/-- **Without a ticket order (`F3.Net`: every rank 0) the same schedule never converges**: on a rank tie `findBest` keeps
+the value inserted first — the member's own — so every member re-PREPAREs its own value in round 1, PREPARE splits 2/2
+again, and everybody moves on to round 2. -/
+theorem unranked_round1_does_not_converge :
+    (runScript (fun _ _ => 0) rkNet rkScript).1.nodes.map (fun e => (e.1, e.2.round, e.2.phase, e.2.termination.map (·.value))) =
+      [(1, 2, .converge, none), (2, 2, .converge, none), (3, 2, .converge, none), (4, 2, .converge, none)] ∧
+    ((runScript (fun _ _ => 0) rkNet rkScript).1.pool.filter (fun m => m.round == 1 && m.phase == .prepare)).map
+        (fun m => (m.sender, m.value)) = [(1, [7, 8]), (2, [7, 8]), (3, [7]), (4, [7])] := by
+  refine ⟨by decide +kernel, by decide +kernel⟩
+
+/-! ### S13 in the ranked model: the unconditional round bound is false
+
+Known finding S13 (`known_findings.json`): every strong quorum needs a member `M` whose input is incompatible with the
+proposal `V` the others stand on. Four equal members (a strong quorum needs three); member 4 broadcasts its QUALITY
+vote for `7.8` and is silent from then on (crashed: within the `< 1/3` budget), its vote reaches members 1 and 2 only.
+Members 1, 2 (input `7.8`) hold a QUALITY quorum for `7.8` and stand on it; member 3 = `M` (input `7.9`) knows only
+the base `7` as candidate. From then on the run is perfectly synchronous among 1, 2, 3 (every message of a phase is
+handed to all three before any timeout is evaluated). In every round the CONVERGE value `7.8` of members 1 and 2 is
+justified by the COMMIT-bottom quorum of the previous round, hence admissible at `M` only as a candidate — which it is
+not; `M`'s value `7` is a candidate at 1 and 2. So a round decides iff `M` holds the best ticket. -/
+
+def s13Cfg : Cfg := { maxLookahead := 2, rebImmediateAfter := 3, timeout2 := [100], qualityTimeout2 := 100, rebAfter := [50] }
+def s13Inp (p : Pid) : Chain := if p == 3 then [7, 9] else [7, 8]
+def s13Net : Net := initNet rkTbl [1, 2, 3, 4] (fun _ => s13Cfg) s13Inp
+def s13Live : List Pid := [1, 2, 3]
+def s13Alarms (now : Int) : List NetOp := s13Live.map (fun p => NetOp.alarm p now)
+/-- one synchronous round starting at time `t`: CONVERGE handed to all, CONVERGE timers, PREPARE handed to all, PREPARE
+timers, COMMIT handed to all -/
+def s13Round (r : Nat) (t : Int) : List (Net → List NetOp) :=
+  [fun n => floodOps n (t + 1) s13Live r .converge,
+   fun _ => s13Alarms (t + 150),
+   fun n => floodOps n (t + 151) s13Live r .prepare,
+   fun _ => s13Alarms (t + 300),
+   fun n => floodOps n (t + 301) s13Live r .commit]
+def s13Script (rounds : List Nat) : List (Net → List NetOp) :=
+  [fun _ => [.start 1 0, .start 2 0, .start 3 0, .start 4 0],
+   fun n => floodOps n 1 [1, 2] 0 .quality,
+   fun n => (floodOps n 2 [3] 0 .quality).filter (fun o => match o with | .deliver _ _ m => m.sender != 4 | _ => true),
+   fun _ => [.alarm 3 100],
+   fun n => floodOps n 201 s13Live 0 .prepare,
+   fun _ => s13Alarms 400,
+   fun n => floodOps n 401 s13Live 0 .commit] ++
+  rounds.flatMap (fun r => s13Round r (401 + 350 * ((r : Int) - 1))) ++
+  [fun n => floodOps n 100000 s13Live 0 .decide]
+/-- member 1 holds the best ticket of every round -/
+def s13Lose : Pid → Nat → Nat := fun p _ => p
+/-- ... except that `M` = member 3 wins the lottery of round 2 -/
+def s13Win2 : Pid → Nat → Nat := fun p r => if r == 2 && p == 3 then 0 else p
+
+/-- **S13, the stall.** `M` never holds the best ticket: rounds 0, 1, 2, 3 all end with COMMIT bottom from every live
+member (PREPARE `7.8`, `7.8`, `7` each time), nothing fails, nobody decides, everybody is in CONVERGE of round 4 — and
+so on for as many rounds as `M` loses the lottery: no bound on the number of rounds after stabilisation holds of the
+model. The premise of the conditional round theorem that fails is admissibility: the best ticket's value `7.8` is not a
+candidate at `M`, and its justification is a COMMIT (bottom) quorum, not a PREPARE quorum. -/
+theorem s13_rounds_end_in_bottom :
+    execOkR s13Lose s13Net (runScript s13Lose s13Net (s13Script [1, 2, 3])).2 = true ∧
+    (runScript s13Lose s13Net (s13Script [1, 2, 3])).1.fails = [] ∧
+    (runScript s13Lose s13Net (s13Script [1, 2, 3])).1.nodes.map
+        (fun e => (e.1, e.2.round, e.2.phase, e.2.termination.map (·.value))) =
+      [(1, 4, .converge, none), (2, 4, .converge, none), (3, 4, .converge, none), (4, 0, .quality, none)] ∧
+    (runScript s13Lose s13Net (s13Script [1, 2, 3])).1.nodes.map (fun e => (e.2.proposal, e.2.candidates)) =
+      [([7, 8], [[7], [7, 8]]), ([7, 8], [[7], [7, 8]]), ([7], [[7]]), ([7, 8], [[7]])] ∧
+    ((runScript s13Lose s13Net (s13Script [1, 2, 3])).1.pool.filter (fun m => m.phase == .commit)).all
+        (fun m => m.value == []) = true ∧
+    ((runScript s13Lose s13Net (s13Script [1, 2, 3])).1.pool.filter (fun m => m.phase == .prepare)).map
+        (fun m => (m.sender, m.round, m.value)) =
+      [(1, 0, [7, 8]), (2, 0, [7, 8]), (3, 0, [7]), (1, 1, [7, 8]), (2, 1, [7, 8]), (3, 1, [7]),
+       (1, 2, [7, 8]), (2, 2, [7, 8]), (3, 2, [7]), (1, 3, [7, 8]), (2, 3, [7, 8]), (3, 3, [7])] ∧
+    ((runScript s13Lose s13Net (s13Script [1, 2, 3])).1.pool.filter (fun m => m.phase == .converge && m.sender == 1)).all
+        (fun m => m.value == [7, 8] && (m.just.map (fun j => (j.phase, j.value))) == some (.commit, [])) = true := by
+  refine ⟨by decide +kernel, by decide +kernel, by decide +kernel, by decide +kernel, by decide +kernel, by decide +kernel,
+    by decide +kernel⟩
+
+/-- **S13, the way out.** Same inputs, same schedule, but `M` holds the best ticket of round 2: its value `7` is a
+candidate everywhere, everybody PREPAREs and COMMITs `7` in round 2 and decides it. -/
+theorem s13_decides_when_M_wins :
+    (runScript s13Win2 s13Net (s13Script [1, 2, 3])).1.fails = [] ∧
+    (runScript s13Win2 s13Net (s13Script [1, 2, 3])).1.nodes.map
+        (fun e => (e.1, e.2.round, e.2.phase, e.2.termination.map (·.value))) =
+      [(1, 2, .terminated, some [7]), (2, 2, .terminated, some [7]), (3, 2, .terminated, some [7]),
+       (4, 0, .quality, none)] := by
+  refine ⟨by decide +kernel, by decide +kernel⟩
+
+/-! ### round `r ≥ 1`, stage by stage (node level; the network-level composition is open, see the header of
+`F3/Proofs/RoundDecides.lean` and REPORT) -/
+
+/-- **Round `r`, CONVERGE stage** (`F3/Proofs/RoundDecides.lean`). A participant in CONVERGE of any round whose timer has
+expired, whose converge state holds only CONVERGE messages of honest participants (`ConvOK val rk`: participant `q`
+sent value `val q` with ticket rank `rk q` — what `NetRanked` delivers), among them that of the strictly best ticket
+holder `w`, PREPAREs `val w`, *if `val w` is admissible at this participant* (`admissible` = the filter of
+`tryConverge`: a candidate, or justified by PREPAREs and still reachable in the previous round's COMMIT tally). This is
+the premise that fails in S13. -/
+theorem round_converge_stage (s : State) (now : Int) (val : Pid → Chain) (rk : Pid → Nat) (w : Pid)
+    (hph : s.phase = .converge) (hel : s.phaseTimeoutElapsed now = true)
+    (hok : ConvOK val rk (s.getRound s.round).converged)
+    (hw : w ∈ (s.getRound s.round).converged.senders)
+    (hbest : ∀ q ∈ (s.getRound s.round).converged.senders, q = w ∨ rk w < rk q)
+    (hne : val w ≠ [])
+    (hadm : ∀ cv ∈ (s.getRound s.round).converged.values, cv.chain = val w → admissible s cv = true) :
+    hasFailure (s.tryConverge now).2 = false ∧
+    (s.tryConverge now).1.phase = .prepare ∧ (s.tryConverge now).1.round = s.round ∧
+    (s.tryConverge now).1.proposal = val w ∧ (s.tryConverge now).1.value = val w ∧
+    ∃ j, Eff.broadcast s.round .prepare (val w) false (some j) ∈ (s.tryConverge now).2 :=
+  converge_adopts_best s now val rk w hph hel hok hw hbest hne hadm
+
+/-- **Round `r`, PREPARE stage.** A participant in PREPARE of any round with proposal `v`, whose PREPARE tally of that
+round satisfies the run-level tally invariant (`TallyWF`, part of `GInv`), has heard a strong quorum `H`, and has heard
+only votes for `v`, COMMITs `v` with a justification (without waiting for the timer). -/
+theorem round_prepare_stage_partial (s : State) (now : Int) (V : Pid → Chain → Prop) (v : Chain) (H : List Pid)
+    (hph : s.phase = .prepare) (hprop : s.proposal = v) (hv : v ≠ [])
+    (hwf : TallyWF V s.tbl (s.getRound s.round).prepared)
+    (hne : H ≠ []) (hnd : H.Nodup) (hq : strongQ s.tbl (sumP s.tbl H) = true)
+    (hall : ∀ x ∈ H, x ∈ (s.getRound s.round).prepared.senders)
+    (huni : ∀ x c, x ∈ (s.getRound s.round).prepared.senders → V x c → c = v) :
+    (s.tryPrepare now).1.phase = .commit ∧ (s.tryPrepare now).1.value = v ∧
+    (hasFailure (s.tryPrepare now).2 = true ∨
+      ∃ j, Eff.broadcast s.round .commit v false (some j) ∈ (s.tryPrepare now).2) := by
+  have hs : s.prepFoundQuorum = true := by
+    unfold State.prepFoundQuorum
+    rw [hprop]
+    exact unanimous_tally_strong hwf v H hne hnd hq hall huni
+  have := unanimous_step_prepare s now hph (by rw [hprop]; exact hv) hs
+  rw [hprop] at this
+  exact this
+
+/-- **Round `r`, DECIDE stage**: a DECIDE tally that has heard a strong quorum `H`, all for `v`, holds a strong quorum
+for `v` (`decide_quorum_terminates` then terminates the instance). -/
+theorem round_decide_tally_partial (s : State) (V : Pid → Chain → Prop) (v : Chain) (H : List Pid)
+    (hwf : TallyWF V s.tbl s.decision)
+    (hne : H ≠ []) (hnd : H.Nodup) (hq : strongQ s.tbl (sumP s.tbl H) = true)
+    (hall : ∀ x ∈ H, x ∈ s.decision.senders)
+    (huni : ∀ x c, x ∈ s.decision.senders → V x c → c = v) :
+    s.decision.hasStrongFor v = true :=
+  unanimous_tally_strong hwf v H hne hnd hq hall huni
+
+end RunLevel
 
 end F3.Props.C06
 
